@@ -110,6 +110,9 @@ type Script struct {
 	// RecvFirst makes the receiver goroutine start only after the sender
 	// goroutine has finished (needed for HTTP half-duplex).
 	RecvAfterSend bool `json:"recv_after_send,omitempty"`
+	// CancelAfterClient cancels the caller's context once the client actors
+	// are done (what an application does when it abandons a stream).
+	CancelAfterClient bool `json:"cancel_after_client,omitempty"`
 	ExtraOpts     []grpc.CallOption `json:"-"`
 }
 
@@ -468,6 +471,15 @@ func (r *Run) runHandlerOps(ctx context.Context, stream grpc.ServerStream) {
 			var err error
 			pan := guard(func() { err = stream.SendMsg(op.Msg) })
 			r.rec(Event{Who: "h", Op: "send", Msg: op.Msg, Err: err, Pan: pan})
+		case "sendraw":
+			if stream == nil {
+				continue
+			}
+			raw, _ := rawMsgs.Load(r.ID)
+			r.rec(Event{Who: "h", Op: "send", Call: true})
+			var err error
+			pan := guard(func() { err = stream.SendMsg(raw) })
+			r.rec(Event{Who: "h", Op: "send", Err: err, Pan: pan})
 		case "sethdr", "sendhdr":
 			var err error
 			pan := guard(func() {
@@ -567,6 +579,9 @@ func (r *Run) Exec(cc grpc.ClientConnInterface, parent context.Context, watchdog
 	case <-timer.C:
 		return false, allStacks()
 	}
+	if r.S.CancelAfterClient {
+		cancel()
+	}
 	// the handler may outlive the client; wait for it too (if it started)
 	if r.hStarted.Load() > 0 {
 		select {
@@ -576,6 +591,19 @@ func (r *Run) Exec(cc grpc.ClientConnInterface, parent context.Context, watchdog
 		}
 	}
 	return true, ""
+}
+
+// outgoingCtx builds the caller context (request metadata incl. the run id)
+// for code that drives a stream without Exec.
+func outgoingCtx(r *Run) context.Context {
+	md := metadata.MD{}
+	for k, v := range r.S.ReqMD {
+		md[k] = append([]string(nil), v...)
+	}
+	md.Set(runKey, r.ID)
+	ctx, cancel := context.WithCancel(metadata.NewOutgoingContext(context.Background(), md))
+	r.Ctx, r.Cancel = ctx, cancel
+	return ctx
 }
 
 func allStacks() string {
